@@ -3,7 +3,7 @@ import concurrent.futures as cf
 
 from . import core, vec
 
-CMPS = {"less": "vf::Less", "greater": "vf::Greater", "coarse": "vf::Coarse", "stateful": "vf::Stateful", "tless": "vf::TLess"}
+CMPS = {"less": "vf::Less", "greater": "vf::Greater", "coarse": "vf::Coarse", "stateful": "vf::Stateful", "tless": "vf::TLess", "fine": "vf::FinePar"}
 
 
 class FSCfg:
@@ -50,6 +50,7 @@ FS_QUICK = [
     FSCfg("NTR", "stateful", "greater", "v", "realloc"),
     FSCfg("TR", "less", "greater", "s4", "basic", std="c++20"),  # operator<=>, erase_if
     FSCfg("int", "coarse", "less", "v", "amc"),  # raw arithmetic keys, equivalence coarser than equality
+    FSCfg("TR", "fine", "less", "v", "basic"),  # comparator finer than the elements' operator==
 ]
 FS_THOROUGH = [
     FSCfg("TR", "coarse", "less", "s2", "basic"),
@@ -122,6 +123,7 @@ SS_HIST_QUICK = [
     # transparent comparator: heterogeneous lookups (int keys, and keys equivalent to a run of several elements), both backing sets
     SSCfg("TC4", 4, "tless", 6, "less", "flat", "basic"),
     SSCfg("NTR", 3, "tless", 5, "tless", "set"),
+    SSCfg("TC4", 4, "fine", 6, "less", "set", "amc"),  # comparator finer than the elements' operator==
 ]
 SS_HIST_THOROUGH = [
     SSCfg("NTR", 8, "coarse", 4, "greater", "flat"),
@@ -273,6 +275,9 @@ HG_QUICK = [
     HGCfg("TR", "less", "s3", "realloc"),
     HGCfg("TC8", "greater", "f16"),
     HGCfg("NTR", "stateful", "std", "exact"),
+    # comparator finer than the elements' operator== (two elements that are == can both belong to the set)
+    HGCfg("TC4", "fine", "v", "amc"),
+    HGCfg("NTR", "fine", "s3", "basic"),
 ]
 HG_THOROUGH = [
     HGCfg("TR", "stateful", "v", "basic"),
@@ -307,6 +312,7 @@ COST_QUICK = [
     # narrow keys: thresholds expressed in bytes (elements per cache line) move with sizeof(T)
     CostCfg("K1", "less", "v"),
     CostCfg("K2", "greater", "s4", "basic"),
+    CostCfg("TC8", "tless", "v"),  # transparent comparator: heterogeneous keys, incl. keys equivalent to long runs of elements
 ]
 COST_THOROUGH = [
     CostCfg("TR", "less", "s4", "realloc"),
